@@ -51,6 +51,8 @@ type Scn struct {
 	// UDPIn: the downstream is a UDP association; the client sends datagrams of these sizes (its
 	// stream is their concatenation), the association ends by its idle timeout
 	UDPIn []int `json:"udp_in,omitempty"`
+	// Burst: the datagrams arrive back to back (more of them than the association's queue holds)
+	Burst bool `json:"burst,omitempty"`
 }
 
 var chunk = layer4.VerifPrefetchChunkSize()
@@ -203,7 +205,9 @@ func execute(x *explore.Exec, sc *Scn) *result {
 			for _, n := range sc.UDPIn {
 				pc.Inject(vnet.Datagram{Data: out[off : off+n], Addr: hm.MustUDPAddr("192.0.2.9:40000")})
 				off += n
-				vtime.Sleep(10 * time.Millisecond)
+				if !sc.Burst {
+					vtime.Sleep(10 * time.Millisecond)
+				}
 			}
 			vtime.Sleep(45 * time.Second) // the association's idle timeout ends the client's direction
 			pc.Fail(os.ErrClosed)
@@ -440,6 +444,12 @@ func scenarios(tier string, yield func(any) bool) {
 		}
 		if !yield(&Scn{C2U: sum, U2C: 3, Peers: 1, Order: "upstream-first", Half: true, Need: 1, Writes: 1, UDPIn: in}) {
 			return
+		}
+		if len(in) == 1 && in[0] == 5 {
+			// ... and a burst of small datagrams longer than the association's queue
+			if !yield(&Scn{C2U: 27, U2C: 3, Peers: 1, Order: "upstream-first", Half: true, Need: 1, Writes: 1, UDPIn: []int{3, 3, 3, 3, 3, 3, 3, 3, 3}, Burst: true}) {
+				return
+			}
 		}
 	}
 	if !bigScenarios(yield) {
